@@ -124,7 +124,12 @@ impl PhysLayer {
                 x.write_all(data).await
             }
             #[cfg(feature = "enable-tls")]
-            PhysLayerImpl::Tls(x) => x.write_all(data).await,
+            PhysLayerImpl::Tls(x) => {
+                x.write_all(data).await?;
+                // when the socket is not writable the TLS layer accepts the data and keeps the
+                // ciphertext in its own buffer: without a flush it stays there until the next write
+                x.flush().await
+            }
             #[cfg(test)]
             PhysLayerImpl::Mock(x) => x.write_all(data).await,
             #[cfg(feature = "verif-hooks")]
